@@ -90,11 +90,16 @@ func c14(ctx *Ctx) {
 			if j == 0 {
 				dns = dnsFirst
 			}
-			port := 8000 + r.Intn(100)
+			// what decides is the port alone, whatever the address family and however the address is
+			// written (IPv6 literals contain colons, and may contain ":53")
+			port := []int{8000 + r.Intn(100), 5353, 153, 530, 5300, 35}[r.Intn(6)]
 			if dns {
 				port = 53
 			}
-			addr := &net.UDPAddr{IP: net.IPv4(8, 8, 8, 8), Port: port}
+			addr := &net.UDPAddr{IP: []net.IP{net.IPv4(8, 8, 8, 8), net.ParseIP("2001:4860:4860::8888"), net.ParseIP("2001:db8::53"), net.ParseIP("::ffff:8.8.4.4"), net.ParseIP("fe80::53")}[r.Intn(5)], Port: port}
+			if addr.IP.IsLinkLocalUnicast() {
+				addr.Zone = "lo"
+			}
 			now := time.Now()
 			if isWrite {
 				if dl0 := func() time.Time { pc.mu.Lock(); defer pc.mu.Unlock(); return pc.deadline }(); !dl0.IsZero() && dl0.After(now) {
